@@ -198,16 +198,19 @@ def linebreak(chk, w):
             if n in ("i", "prev_c", "offset") and l in it._loop_assigned_locals(h):
                 v = o.value_at((("L", l),))
                 upd.add((n, forms.show(nz.form(v)) if v[0] in ("expr", "i") else nz.value_atom(v)))
+    # complete decision table over (previous, current) in {CR, LF, other}^2; a component never tested on a path ("any") stands
+    # for all three classes
     good = True
+    full = {}
     for p, c_, st in rows:
-        want_store = p in ("CR", "LF") or c_ in ("CR", "LF")
-        if p == "any" or c_ == "any":
-            # undecided class on this path: a store here would be unconditional in that component
-            if st and not want_store:
+        for pp in (("CR", "LF", "other") if p == "any" else (p,)):
+            for cc in (("CR", "LF", "other") if c_ == "any" else (c_,)):
+                full.setdefault((pp, cc), set()).add(st)
+    for pp in ("CR", "LF", "other"):
+        for cc in ("CR", "LF", "other"):
+            want = {("WordBoundary",)} if (pp != "other" or cc != "other") else {()}
+            if full.get((pp, cc)) != want:
                 good = False
-            continue
-        if want_store != (st == ("WordBoundary",)):
-            good = False
     chk.ob("R15.3", "linebreak:table", good and any(st for _, _, st in rows) and any(not st for _, _, st in rows),
            "line-break filter derives (previous char, current char, stores) = %s; specification: store WordBoundary iff previous or current is CR/LF" % sorted(rows), site=C.site(b, h),
            sample={"rows": str(sorted(rows))})
